@@ -227,7 +227,8 @@ func (g *c02Gen) call(id string) c02Msg {
 	case x < 15:
 		return mk("unknown-method", -32601, r.Choose("foo/bar", "tools/call2", "", "TOOLS/LIST", "notifications/nope"), r.Choose("-", "{}", "[1,2]"))
 	case x < 18:
-		return mk("bad-params", -32602, "tools/call", r.Choose(`{"name":5}`, `[1,2]`, `"str"`, `{"name":["echo"]}`, `17`))
+		// incl. member names that differ from the protocol's only in letter case: they are not the real ones
+		return mk("bad-params", -32602, "tools/call", r.Choose(`{"name":5}`, `[1,2]`, `"str"`, `{"name":["echo"]}`, `17`, `{"Name":"echo","arguments":{}}`, `{"NAME":"echo"}`, `{"name":"no-such-tool","Name":"echo","arguments":{}}`))
 	case x < 20:
 		return mk("missing-params", -32600, r.Choose("tools/call", "prompts/get", "resources/read"), r.Choose("-", "null"))
 	default:
